@@ -68,7 +68,9 @@ def run(tier):
                         ops.append({"op": "record", "tuning": ch == "w", "div": rnd.random() < 0.4, "upd": rnd.random() < 0.4})
                 chains = rnd.choice([1, 2])
                 scs.append({"backend": b, "preset": "diag_nuts", "dim": 2, "num_tune": h.count("w") + rnd.choice([0, 1]),
-                            "num_draws": h.count("s") + rnd.choice([0, 2]), "chains": chains, "store_warmup": True, "chunk": cs,
+                            "num_draws": h.count("s") + rnd.choice([0, 2]), "chains": chains,
+                            # every fourth run discards the warm-up (the phase switch must still happen)
+                            "store_warmup": len(scs) % 4 != 3, "chunk": cs,
                             "full_events": rnd.random() < 0.5, "optvecs": True, "specials": True,
                             # the slow-queue variant looks only right after flush() returns (nothing may give the
                             # pending writes time to land before the flush under test)
